@@ -408,6 +408,80 @@ fn same_name_from_two_crates_family(rep: &mut Report) {
     rep.cov_add("traces_validated_against_impl", jobs.len() as u64);
 }
 
+/// Everything a single-file run declares — helper definitions a backend adds on its own included (Swift's `CodableVoid`)
+/// — is declared somewhere in the folder output of the same sources, and the reverse. Three crates, a `()`-typed
+/// member in every subset of them (a helper is needed by the first, the middle, the last file written, several, none).
+fn helper_definitions_family(rep: &mut Report) {
+    fn declared(text: &str) -> BTreeSet<String> {
+        const KW: [&str; 9] = ["struct", "class", "enum", "type", "interface", "typealias", "object", "trait", "const"];
+        let mut out = BTreeSet::new();
+        for l in text.lines() {
+            if l.starts_with(' ') || l.starts_with('\t') {
+                continue; // top-level declarations only
+            }
+            let words: Vec<&str> = l.split_whitespace().collect();
+            for i in 0..words.len().min(4) {
+                if KW.contains(&words[i]) {
+                    if let Some(n) = words.get(i + 1) {
+                        let name: String = n.chars().take_while(|c| c.is_alphanumeric() || *c == '_').collect();
+                        if !name.is_empty() {
+                            out.insert(name);
+                        }
+                    }
+                    break;
+                }
+            }
+        }
+        out
+    }
+    let mut jobs = Vec::new();
+    for &lang in &crate::pipeline::ALL_LANGS {
+        for mask in 0u32..8 {
+            jobs.push((lang, mask));
+        }
+    }
+    let results = par_map(&jobs, report::threads(), |(lang, mask)| {
+        let sc = Scratch::new("c14v");
+        for (i, krate) in ["aa", "mm", "zz"].iter().enumerate() {
+            let member = if mask & (1 << i) != 0 { "pub nothing: (), pub many: Vec<()>" } else { "pub n: u32" };
+            sc.write(&format!("ws/{krate}/src/lib.rs"), format!("#[typeshare]\npub struct Of{} {{ {member} }}\n#[typeshare]\npub type Ids{} = Vec<u32>;\n", krate.to_uppercase(), krate.to_uppercase()).as_bytes());
+        }
+        sc.mkdir("out");
+        let mut a1 = cli::lang_args(*lang);
+        a1.extend([s("-d"), sc.path("out").to_string_lossy().into_owned(), sc.path("ws").to_string_lossy().into_owned()]);
+        let r1 = run_cli(&a1, &sc.root, &[], cli::TIMEOUT);
+        let single = sc.path(&format!("single/types.{}", lang.ext()));
+        sc.mkdir("single");
+        let mut a2 = cli::lang_args(*lang);
+        a2.extend([s("-o"), single.to_string_lossy().into_owned(), sc.path("ws").to_string_lossy().into_owned()]);
+        let r2 = run_cli(&a2, &sc.root, &[], cli::TIMEOUT);
+        let folder: std::collections::BTreeMap<String, String> = cli::snapshot(&sc.path("out")).into_iter().map(|(k, v)| (k, String::from_utf8_lossy(&v).into_owned())).collect();
+        (r1.class(), r2.class(), format!("{}{}", r1.stderr, r2.stderr).chars().take(400).collect::<String>(), folder, std::fs::read_to_string(&single).unwrap_or_default(), a1)
+    });
+    let mut judged = 0u64;
+    let mut with_helpers = 0u64;
+    for ((lang, mask), (c1, c2, stderr, folder, single, argv)) in jobs.iter().zip(results.iter()) {
+        judged += 1;
+        let in_single = declared(single);
+        let in_folder: BTreeSet<String> = folder.values().flat_map(|t| declared(t)).collect();
+        if in_single.len() > 6 {
+            with_helpers += 1;
+        }
+        let lost: Vec<&String> = in_single.difference(&in_folder).collect();
+        let extra: Vec<&String> = in_folder.difference(&in_single).collect();
+        if *c1 != "ok" || *c2 != "ok" || !lost.is_empty() || !extra.is_empty() {
+            let pattern: String = (0..3).map(|i| if mask & (1 << i) != 0 { 'u' } else { '-' }).collect();
+            rep.vios.add(Violation {
+                sig: format!("C14|{}|declarations-of-folder-output-vs-single-file|{}|unit-members-in-crates={pattern}", lang.name(), if *c1 != "ok" || *c2 != "ok" { "run-failed".to_string() } else if !lost.is_empty() { format!("missing-from-the-folder:{}", lost.iter().map(|x| x.as_str()).collect::<Vec<_>>().join("+")) } else { format!("only-in-the-folder:{}", extra.iter().map(|x| x.as_str()).collect::<Vec<_>>().join("+")) }),
+                detail: json!({"argv": argv, "exits": [c1, c2], "stderr": stderr, "folder_output": folder, "single_file_output": single, "declared_in_single_file_output": in_single, "declared_in_folder_output": in_folder}),
+            });
+        }
+    }
+    rep.cov("helper_definitions", json!({"process_runs": jobs.len() * 2, "crates": 3, "placements_of_unit_members": 8, "languages": 6, "judgements": judged, "runs_in_which_the_backend_declared_something_of_its_own": with_helpers}));
+    rep.cov_add("evaluations", judged);
+    rep.cov_add("traces_validated_against_impl", jobs.len() as u64 * 2);
+}
+
 /// Layouts in which the crate of a file is not simply "the directory it was found under": crates nested inside a crate's
 /// directory, annotated files outside any `src`, crates and files reached through symbolic links. The crate is the
 /// directory above the nearest `src` *of the path as walked*; runs at several thread counts must agree with that and
@@ -799,6 +873,7 @@ pub fn run(args: &[String]) -> i32 {
     topology_family(&mut rep);
     same_name_from_two_crates_family(&mut rep);
     layouts_family(&mut rep);
+    helper_definitions_family(&mut rep);
     rep.cov("exhaustive", json!(true));
     rep.cov("rule", json!("full product of reference form × serde(rename) on the target × type mapping of the target × same-named type in a third crate × reference position × file depth/dashed crate name × language, each workspace generated with -d and with -o by the real binary: file set and names per crate, each definition in its crate's file, definitions equal to single-file mode, and (TypeScript, Kotlin) every cross-file reference imported from the defining module and no import of a name its module does not define. non-trivial = the reference crosses a crate boundary."));
     rep.assume("over-import by `use c::*` (names defined in c but unused) is allowed by the property");
